@@ -302,7 +302,8 @@ class Reproducible(Harness):
     stubs = ("random.* module functions, numpy.random.* legacy functions, time.*, os.urandom -> nondeterministic stubs",
              "random.Random() / numpy default_rng() without a seed -> reported",
              "the name `set` in every pams module -> set whose iteration order over strings is solver-chosen",
-             "the name `hash` in every pams module -> for values containing strings, a result that differs between the compared runs")
+             "the name `hash` in every pams module -> for values containing strings, a result that differs between the compared runs",
+             "the thread's decimal arithmetic context -> another precision in the repeated run")
     assumptions = ("bit-level determinism of CPython's Mersenne Twister, NumPy's Generator and SciPy for a given seed",
                    "the interpreter's hash seed can influence a run only through str hashing, i.e. the iteration order "
                    "of sets of strings created by calling set(...) (set displays / comprehensions are counted by a "
@@ -341,7 +342,13 @@ class Reproducible(Harness):
             observe_run(pams, settings, case["seed"] + 5)
             G.epoch = 2
             self.inject(pams, make_symset(G, symbolic=True), make_hash(G))
-            again, _ = observe_run(pams, settings, case["seed"])
+            import decimal
+            saved_ctx = decimal.getcontext()
+            decimal.setcontext(decimal.Context(prec=9, rounding=decimal.ROUND_HALF_EVEN))   # another arithmetic context
+            try:
+                again, _ = observe_run(pams, settings, case["seed"])
+            finally:
+                decimal.setcontext(saved_ctx)
             g.require(len(ref) == len(again), "C07.outcome-differs",
                       f"{len(ref)} observations in the reference run, {len(again)} in the repeated run")
             for k, (a, b) in enumerate(zip(ref, again)):
